@@ -37,6 +37,7 @@ ASSUMPTIONS = [
 ]
 MIN_NONTRIVIAL = {'quick': 3000, 'thorough': 60000}
 REQUIRED_MONITORS = ['roundtrip', 'unknown-name', 'channel:A=B', 'channel:A=C',
+                     'channel:split',
                      'channel:K', 'channel:M', 'tract:A=B', 'tract:A=C',
                      'hook:PLSSParser.__init__', 'hook:TractParser.__init__']
 
@@ -243,6 +244,28 @@ def run_plss(st, desc, ctx, log, pytrs, label):
                         f"keyword {kw} over config "
                         f"{CF.to_text(contrary)!r} on {desc!r}: {why}",
                         dedup='|'.join(sorted(st)))
+        # S: the assignment split between config string and keywords.
+        kwable = sorted(k for k in full if k in PKW)
+        if len(kwable) >= 2:
+            import random as _random
+            r_ = _random.Random(repr((st, desc)))
+            pick = set(r_.sample(kwable, r_.randint(1, len(kwable) - 1)))
+            kw_s = {k: v for k, v in full.items() if k in pick}
+            cfg_s = {k: v for k, v in full.items() if k not in pick}
+            log.reset()
+            s_ = pytrs.PLSSDesc(desc, config=CF.to_text(cfg_s) or None,
+                                wait_to_parse=True)
+            r = s_.parse(**kw_s)
+            S = outcome(r, s_, log, master)
+            rec('split')
+            why = diff(A, S)
+            if why:
+                ctx.violation(
+                    'channel-mismatch:settings-split-between-config-and-'
+                    'keywords', case,
+                    f"config {CF.to_text(cfg_s)!r} + keywords {kw_s} vs all "
+                    f"in config ({cfg!r}) on {desc!r}: {why}",
+                    dedup='|'.join(sorted(st)))
         # M: config over a contrary MasterConfig
         if 'default_ns' in st or 'default_ew' in st:
             saved = (MC.default_ns, MC.default_ew)
@@ -360,6 +383,14 @@ def run_roundtrip(rng, ctx, pytrs):
     st = CF.gen_settings(rng, density=rng.choice([0.1, 0.3, 0.6, 0.9]))
     if rng.random() < 0.2:
         st['wait_to_parse'] = rng.random() < 0.5
+    if rng.random() < 0.25:
+        # qq_depth may be set next to qq_depth_min / qq_depth_max (it then
+        # overrides them, but all three are part of the configuration).
+        st['qq_depth'] = rng.randint(1, 3)
+        if rng.random() < 0.7:
+            st['qq_depth_min'] = rng.randint(1, 3)
+        if rng.random() < 0.7:
+            st['qq_depth_max'] = rng.randint(st.get('qq_depth_min', 2), 4)
     text = CF.to_text(st, rng)
     case = {'kind': 'roundtrip', 'settings': st, 'text': text}
     ctx.case(text, True, shape='roundtrip',
@@ -387,6 +418,22 @@ def run_roundtrip(rng, ctx, pytrs):
                         f"{getattr(c1, k)!r} before (text {text!r} -> "
                         f"{t2!r})", dedup=f"{name}|{k}")
                     return
+    # A Config object and its text must configure an object identically.
+    with ctx.guard(case):
+        c1 = pytrs.Config(text)
+        ta = pytrs.Tract('N/2NE/4NE/4, NE, N/2 of Lot 1', config=c1)
+        tb = pytrs.Tract('N/2NE/4NE/4, NE, N/2 of Lot 1',
+                         config=c1.decompile_to_text())
+        for k in ('default_ns', 'default_ew', 'parse_qq', 'clean_qq',
+                  'suppress_lot_divs', 'ocr_scrub', 'qq_depth',
+                  'qq_depth_min', 'qq_depth_max', 'break_halves'):
+            if getattr(ta, k) != getattr(tb, k):
+                ctx.violation('config-object-vs-text', case,
+                              f"Tract(config=Config({text!r})).{k} == "
+                              f"{getattr(ta, k)!r} but via its text "
+                              f"{c1.decompile_to_text()!r}: "
+                              f"{getattr(tb, k)!r}", dedup=k)
+                break
     if rng.random() < 0.15:
         name = rng.choice(UNKNOWN)
         bad = (text + ',' + name) if text and rng.random() < 0.5 else name
